@@ -910,6 +910,70 @@ fn judge_cli(c: &CliCase, cls: &mut Classifier) -> Verdict {
     Ok(())
 }
 
+// ---------------------------------------------------------------- the same rules at the vanity options of `new`
+
+/// `new --vanity-prefix 0x<d> -j 0 --vanity-hd-path P` / `--vanity-account-index I` with a P / I that must
+/// be refused: the command must fail with an ordinary error and print nothing (it must not fall back to
+/// another path and print a phrase).
+#[derive(Clone, Debug, Serialize, Deserialize)]
+pub struct VanityCliCase {
+    /// "vanity-hd-path" or "vanity-account-index"
+    pub mode: String,
+    pub value: String,
+    pub inv: Invocation,
+}
+
+fn gen_vanity_cli_case(tape: Vec<u8>) -> VanityCliCase {
+    let base = gen_cli_case(tape.clone());
+    let mut u = U::new(&tape);
+    let refused = if base.mode == "hd-path" {
+        matches!(expectation(&analyse(&base.value)), Expect::MustErr(..))
+    } else {
+        base.value.bytes().all(|b| b.is_ascii_digit()) && !base.value.is_empty() && base.value.parse::<u128>().map(|i| i >= LIMIT).unwrap_or(true)
+    };
+    let (mode, value) = if refused {
+        (format!("vanity-{}", base.mode), base.value)
+    } else if u.bool() {
+        ("vanity-hd-path".to_string(), ["m/2147483648", "m/44'/60'/0'/0/4294967296", "44'/60'/0'/0/0", "m/0//1", "m/", "m/1h", "m/-1", "m/1.5", "m/0x10", "m/0''", "m0/1"][u.below(11)].to_string())
+    } else {
+        ("vanity-account-index".to_string(), ["2147483648", "4294967295", "4294967296", "4294967301", "9223372036854775808", "18446744073709551615"][u.below(6)].to_string())
+    };
+    let digit = format!("0x{:x}", u.below(16));
+    let mut inv = Invocation::new(&["new", "--vanity-prefix", &digit, "-j"]).arg(["0", "1", "2"][u.below(3)]);
+    inv = if value.starts_with('-') || u.ratio(1, 4) { inv.arg(format!("--{mode}={value}")) } else { inv.arg(format!("--{mode}")).arg(value.clone()) };
+    VanityCliCase { mode, value, inv }
+}
+
+fn judge_vanity_cli(c: &VanityCliCase, cls: &mut Classifier) -> Verdict {
+    let Some(exe) = cli_path() else {
+        return fail("path of the hdwallet executable", "none", "harness: CLI path not configured (--cli or HDV_CLI)");
+    };
+    let must_err = match c.mode.as_str() {
+        "vanity-hd-path" => matches!(expectation(&analyse(&c.value)), Expect::MustErr(..)),
+        "vanity-account-index" => c.value.bytes().all(|b| b.is_ascii_digit()) && !c.value.is_empty() && c.value.parse::<u128>().map(|i| i >= LIMIT).unwrap_or(true),
+        _ => return fail("vanity-hd-path or vanity-account-index", c.mode.clone(), "bad replay case"),
+    };
+    if !must_err {
+        return fail("a value that must be refused", c.value.clone(), "bad replay case");
+    }
+    let out = cli::run(&exe, &c.inv, Duration::from_secs(60));
+    if out.timed_out {
+        cls.label("cli:timeout");
+        return Ok(());
+    }
+    let what = format!("`new --vanity-prefix .. --{} {:?}`", c.mode, truncate(&c.value, 200));
+    if out.panicked() {
+        return fail("an ordinary error exit", out.describe(), format!("{what} panicked / abnormal exit"));
+    }
+    if !out.ordinary_error() || !out.stdout.is_empty() {
+        return fail("ordinary error exit (255 or 2) with empty stdout", out.describe(), format!("{what}: a path / index that must be refused was not refused by the vanity search"));
+    }
+    cls.label(&format!("cli:{}:refused", c.mode));
+    cls.nontrivial(&("cli-vanity", c.mode.as_str(), c.value.as_str(), c.inv.args.clone()));
+    cls.sample(&format!("cli:{}:refused", c.mode), || json!({"args": c.inv.args, "exit": out.code}));
+    Ok(())
+}
+
 // ---------------------------------------------------------------- run / replay
 
 /// Generator-health floors are only meaningful for a run that was not cut
@@ -1043,6 +1107,7 @@ pub fn run(ctx: &mut Ctx) {
         Some(exe) if exe.is_file() => {
             let n_cli = t.pick(1_600, 40_000);
             ctx.run_prop("cli", n_cli, || crate::gen::tape(256).prop_map(gen_cli_case), judge_cli);
+            ctx.run_prop("cli-vanity", t.pick(300, 5_000), || crate::gen::tape(256).prop_map(gen_vanity_cli_case), judge_vanity_cli);
             let timeouts = ctx.cls.count("cli:timeout");
             if timeouts > 0 {
                 ctx.inconclusive(format!("{timeouts} CLI runs hit the watchdog"));
@@ -1053,6 +1118,8 @@ pub fn run(ctx: &mut Ctx) {
             floor(ctx, "cli:account-index:address", n, 0.08);
             floor(ctx, "cli:account-index:refused", n, 0.08);
             floor(ctx, "cli:refused-by-clap", n, 0.01);
+            floor_abs(ctx, "cli:vanity-hd-path:refused", 60);
+            floor_abs(ctx, "cli:vanity-account-index:refused", 30);
         }
         _ => ctx.inconclusive("the hdwallet executable was not provided (--cli); CLI sample not run"),
     }
@@ -1063,6 +1130,7 @@ fn replay_inner(sub: &str, case: &Value) -> Option<Verdict> {
         "paths" | "boundary" | "fixed" | "embedded" | "mutated" | "spelling" | "text" => Some(replay_as::<TextCase>(case, judge_text_case)),
         "index" => Some(replay_as::<IndexCase>(case, judge_index)),
         "cli" => Some(replay_as::<CliCase>(case, judge_cli)),
+        "cli-vanity" => Some(replay_as::<VanityCliCase>(case, judge_vanity_cli)),
         _ => None,
     }
 }
